@@ -11,8 +11,8 @@ JSON is used as the *protocol* syntax for structured values (parsed with Lean's 
   file NAME absent|dir|HEX|-      -> ok        (set / remove a disk node)
   dec HEX|- fail                  -> ok        (json.load raises on these bytes)
   dec HEX|- JSON                  -> ok        (json.load returns JSON)
-  cacheset JSON                   -> ok        (JSON = [[key, t0, t1, attr], ...], t = [7 ints] | "nonelist")
-  save NAME N HEX*                -> doc=JSON|raise cache=STATE backup=STATE
+  cacheset JSON                   -> ok        (JSON = [[key, t0, t1, attr], ...], t = [7 ints])
+  save NAME N HEX*                -> doc=JSON cache=STATE backup=STATE
         N = -1: complete save; N ≥ 0: an exception after N events of (open, write₁ … write_k)
         (N = 0 the open fails, N = k+1 all writes done and the rename fails)
   load NAME | init NAME           -> warn|ok CACHEJSON
@@ -69,9 +69,8 @@ def showNode : Option Node → String
   | some .dir => "dir"
   | some (.file b) => hex b
 
-def slotJson : TSlot → Json
-  | .noneList => .str "nonelist"
-  | .time t => .arr #[t.y, t.mo, t.d, t.h, t.mi, t.s, t.us]
+def slotJson (t : DateTime) : Json :=
+  .arr #[t.y, t.mo, t.d, t.h, t.mi, t.s, t.us]
 
 def infoJson (i : Info) : Json :=
   .arr #[toJson' i.path.toJ, slotJson i.t0, slotJson i.t1, toJson' i.attr]
@@ -79,11 +78,10 @@ def infoJson (i : Info) : Json :=
 def cacheJson (c : CacheMap) : String :=
   (Json.arr (c.map (fun kv => infoJson kv.2)).toArray).compress
 
-def slotOf : Json → Option TSlot
-  | .str "nonelist" => some .noneList
+def slotOf : Json → Option DateTime
   | .arr xs =>
     match xs.toList.mapM (fun j => j.getNat?.toOption) with
-    | some [y, mo, d, h, mi, s, us] => some (.time ⟨y, mo, d, h, mi, s, us⟩)
+    | some [y, mo, d, h, mi, s, us] => some ⟨y, mo, d, h, mi, s, us⟩
     | _ => none
   | _ => none
 
@@ -156,16 +154,10 @@ def step' (s : St) (line : String) : St × String :=
       let fin (d : Disk) (doc : String) : St × String :=
         ({ s with disk := { d with bufs := FS.empty } },
          s!"doc={doc} cache={showNode (d.files name)} backup={showNode (d.files (backupOf name))}")
-      match cacheDoc s.cache with
-      | none =>
-        -- open succeeded (unless n = 0), then a to_json_dict raised: nothing is written
-        let evs := saveEvents name [] []
-        fin (crashExc s.disk name evs (if n == 0 then 0 else 1)) "raise"
-      | some doc =>
-        let evs := saveEvents name cs []
-        let docs := (toJson' doc).compress
-        if n < 0 then fin (run s.disk evs) docs
-        else fin (crashExc s.disk name evs n.toNat) docs
+      let evs := saveEvents name cs []
+      let docs := (toJson' (cacheDoc s.cache)).compress
+      if n < 0 then fin (run s.disk evs) docs
+      else fin (crashExc s.disk name evs n.toNat) docs
     | _, _ => (s, "bad-op")
   | [op, name] =>
     if op = "load" ∨ op = "init" then
